@@ -789,6 +789,31 @@ fn c09(tier: Tier) -> i32 {
         };
         *classes.lock().unwrap().entry(format!("{part}/{class}")).or_insert(0) += 1;
     });
+    // whole files around plural merging and repeated keys
+    for (name, content) in vmodel::adversarial::whole_files() {
+        for same in [false, true] {
+            let mut p = Project::new(Config::simple("en", &["en", "fr"]));
+            p.set_file(None, "en", vec![("z".to_string(), st("z"))]);
+            p.set_file(None, "fr", vec![]);
+            let dir = root.join("w-file");
+            let out_dir = root.join("w-file-out");
+            p.materialise(&dir, JSON).unwrap();
+            std::fs::write(dir.join("locales").join("en.json"), &content).unwrap();
+            if same {
+                std::fs::write(dir.join("locales").join("fr.json"), &content).unwrap();
+            }
+            rep.eval(1);
+            let class = match observe(&dir, Some(&out_dir)) {
+                Out::Ok(_) => "ok",
+                Out::Err(_) => "err",
+                Out::Panic(m) => {
+                    rep.violation(format!("C09/vbuild: PANIC {} :: file {name} ({}) {content}", m.replace('\n', " "), if same { "both locales" } else { "default locale only" }), json!({"file": content}));
+                    "panic"
+                }
+            };
+            *classes.lock().unwrap().entry(format!("whole-file/{class}")).or_insert(0) += 1;
+        }
+    }
     // locale names that are not language identifiers, odd configurations
     for (name, cfg) in [
         ("odd-locale-names", Config::simple("en", &["en", "x_y", "toolongsubtag123", "é"])),
